@@ -24,6 +24,22 @@ CHECKS = {
    note="Trusted: framing reference in props/c16.py. Assumes >=1 payload beat per packet, header >= one data word "
         "(shorter: listed known finding), packets <= PacketFIFO payload depth.",
    tech="deterministic simulation, seeded schedule/selector-change search, byte-level framing reference"),
+ "C17": dict(cat="exploration", ref="DESIGN.md 5.C17",
+   text="The real 8b/10b Encoder/Decoder/StreamEncoder/StreamDecoder run under literal clock-enable and valid/ready "
+        "patterns with a simulated serial line between them; thorough enumerates all ordered symbol pairs under both entry "
+        "disparities, quick a fixed stride of them plus seeded sequences; oracles on the produced serial bit stream "
+        "(disparity bound, run length, comma windows) and on the real decoder (invertibility, invalid flag over all 1024 "
+        "line words, bit flips on the line).",
+   note="Latency is inferred per run; comma check restricted to data-only runs; disparity continuity of the stream wrapper "
+        "demanded for stall-only schedules.",
+   tech="deterministic simulation, enumerated symbol pairs under seeded clock-enable/stall schedules, line bit-flip injection"),
+ "C18": dict(cat="fault_enumeration", ref="DESIGN.md 5.C18",
+   text="ECC-protected store: real ECCEncoder output kept in harness memory, every single and every double bit flip "
+        "position (parity bit included) injected, real ECCDecoder reads back; data words exhaustive for small k, linear "
+        "basis plus random words otherwise; enable=0 pass-through checked with flips.",
+   note="Codecs are combinational (time axis belongs to the harness); for large k sufficiency of the basis rests on "
+        "linearity of the code.",
+   tech="deterministic simulation with enumerated stored-bit-flip injection (all single and double positions)"),
 }
 
 NOT_APPLICABLE = {
